@@ -924,6 +924,22 @@ class SymStr:
         return n
 
     def split(self, sep=None, maxsplit=-1):
+        if sep is None and maxsplit == -1:
+            # split on runs of whitespace; no empty pieces (forks per symbolic character)
+            out, cur = [], []
+            for i in self._chs:
+                c = _ch_isspace(i)
+                if not isinstance(c, bool):
+                    c = ENG.branch(unwrap_bool(c))
+                if c:
+                    if cur:
+                        out.append(SymStr.mk(cur))
+                    cur = []
+                else:
+                    cur.append(i)
+            if cur:
+                out.append(SymStr.mk(cur))
+            return out
         if not (isinstance(sep, str) and len(sep) == 1) or maxsplit != -1:
             raise Unsupported("split form")
         out, cur = [], []
@@ -1841,6 +1857,16 @@ class RT:
     def callm(obj, name, *a, **kw):
         if isinstance(obj, re.Pattern) and a and isinstance(a[0], SymStr):
             # a compiled pattern applied to a symbolic string: same matcher as the module-level functions
+            if len(a) == 2 and not kw and type(a[1]) is int and 0 <= a[1] <= len(a[0]) and not (obj.flags & ~re.UNICODE) \
+               and name in ('match', 'fullmatch', 'search'):
+                # Pattern.match(string, pos): the matcher works on positions of the whole string, as re does
+                if name == 'search':
+                    for at in range(a[1], len(a[0]) + 1):
+                        m = _sym_match_at(obj.pattern, a[0], at)
+                        if m is not None:
+                            return m
+                    return None
+                return _sym_match_at(obj.pattern, a[0], a[1], full=(name == 'fullmatch'))
             if obj.flags & ~re.UNICODE or len(a) > 1 or kw:
                 raise Unsupported("compiled regex with flags / positions on a symbolic string")
             fn = {'match': sym_match, 'fullmatch': sym_fullmatch, 'search': sym_search,
